@@ -19,6 +19,12 @@ theorem vhost_refines (srt : List Wild → List Wild) (hs : IsSorter srt) (cfg :
     findVirtualHost t host = Spec.vhost cfg host :=
   vhost_refines_core hs hb host
 
+/-- the same for the **regenerated** `routersImpl.findVirtualHost` run on a request's variable context. -/
+theorem vhost_refines_gen (srt : List Wild → List Wild) (hs : IsSorter srt) (cfg : Config) (t : Tables)
+    (hb : build srt cfg = .ok t) (ctx : Str → Option Str) :
+    Gen.Route.findVirtualHost splitGraceful t ctx = Spec.vhost cfg (ctx Gen.Route.varHost) := by
+  rw [gen_findVirtualHost]; exact vhost_refines_core hs hb _
+
 /-- **sort instability is harmless**: two sort results (e.g. different orders among equally long suffixes) never
 change the selected virtual host. -/
 theorem vhost_sort_irrelevant (srt srt' : List Wild → List Wild) (hs : IsSorter srt) (hs' : IsSorter srt')
@@ -87,6 +93,14 @@ theorem answer_refines (srt : List Wild → List Wild) (hs : IsSorter srt) (cfg 
 theorem gen_lookup_is_cascade (t : Tables) (host port : Str) :
     Gen.Route.findHighestPriorityIndex t host port = findIdx t host port :=
   gen_findIdx t host port
+
+/-- the regenerated entry loops: `GetRouteFromEntries` returns the first rule whose `Match` is non-nil,
+`GetAllRoutesFromEntries` all of them in order; the regenerated variable-rule loop is the closed-form fold. -/
+theorem gen_entry_loops (rx : RxOracle) (req : Req) (rules : List Rule) :
+    selectRoute rx req rules = rules.findIdx? (matchRule rx req) ∧
+    allRoutes rx req rules = (List.range rules.length).filter (fun i => (rules[i]?).any (matchRule rx req)) ∧
+    ∀ items, Gen.Route.variableMatch rx req.var items = varLoop rx req.var items true Gen.Route.modelAnd :=
+  ⟨selectRoute_eq rx req rules, allRoutes_eq rx req rules, fun items => gen_variableMatch rx req.var items⟩
 
 /-- variable matchers that are all `and` form a plain conjunction. -/
 theorem variables_and_is_conjunction (rx : RxOracle) (req : Req) (vs : List VarCfg)
